@@ -1,6 +1,6 @@
-SPECIFICATION WitSpec
+SPECIFICATION Spec
 CONSTANTS
-  Interval = 16
+  Interval = 8
   MaxLen = 3
   Thresholds = {0, 2}
   AnswerDelays = {0}
@@ -9,10 +9,4 @@ CONSTANTS
   CtxSlots <- WitCtxSlots
   EnvMaxLen = 3
   EnvProduct = FALSE
-  StallKinds <- AllStalls
-  MaxStalls = 1
-  StallMaxLen = 3
-  EstModes <- AllEst
-  EstMaxLen = 2
 CHECK_DEADLOCK FALSE
-INVARIANT WitMark
